@@ -230,6 +230,8 @@ def corpus_cases(algs):
     for alg, _, _ in algs:
         for m in msgs:
             out.append(["new " + alg, "upd " + (m.hex() or "-"), "str", "dig", "len"])
+        # a read whose result string cannot be allocated returns NULL; the reads after it still give the digest (repeatable)
+        out.append(["new " + alg, "upd 616263", "strf", "str", "dig", "strf", "str", "upd 64", "str", "reset", "upd 6162", "strf", "dig", "str"])
     return out
 
 
